@@ -48,6 +48,7 @@ type Engine struct {
 	ghostSafeList []string
 	invariants    map[string]*Invariant
 	baseFuncs     []string
+	funcAlias     map[*ssa.Global]*ssa.Function
 	mu            sync.Mutex
 }
 
@@ -67,7 +68,8 @@ func (e *Engine) markPrelude(vc *VC, name string) {
 func newEngine(repo, specDir string, patterns []string) (*Engine, error) {
 	e := &Engine{repo: repo, specDir: specDir, funcs: map[string]*ssa.Function{}, typesPkg: map[string]*types.Package{},
 		preludeFuncs: map[string]*preludeFunc{}, preludeSorts: map[string]bool{}, ghostElemType: map[string]types.Type{},
-		nativeExterns: map[string]func(fr *frame, args []SV, cur *State, rtyp types.Type) SV{}}
+		nativeExterns: map[string]func(fr *frame, args []SV, cur *State, rtyp types.Type) SV{},
+		ghostSafeList: []string{"types.Subspace.Get", "*types.Subspace.Get", "types.Subspace.Has"}}
 	var err error
 	e.contracts, e.ghosts, e.files, err = loadContracts(repo, specDir)
 	if err != nil {
@@ -118,6 +120,43 @@ func newEngine(repo, specDir string, patterns []string) (*Engine, error) {
 		}
 		e.funcs[funcKey(fn)] = fn
 	}
+	// package-level function aliases (var X = pkg.F), assigned once in the package initialiser
+	e.funcAlias = map[*ssa.Global]*ssa.Function{}
+	for _, sp := range prog.AllPackages() {
+		if !strings.HasPrefix(sp.Pkg.Path(), repoMod) {
+			continue
+		}
+		init := sp.Func("init")
+		if init == nil {
+			continue
+		}
+		count := map[*ssa.Global]int{}
+		for _, b := range init.Blocks {
+			for _, ins := range b.Instrs {
+				st, ok := ins.(*ssa.Store)
+				if !ok {
+					continue
+				}
+				g, ok := st.Addr.(*ssa.Global)
+				if !ok {
+					continue
+				}
+				count[g]++
+				v := st.Val
+				if ct, ok := v.(*ssa.ChangeType); ok {
+					v = ct.X
+				}
+				if f, ok := v.(*ssa.Function); ok {
+					e.funcAlias[g] = f
+				}
+			}
+		}
+		for g, n := range count {
+			if n != 1 {
+				delete(e.funcAlias, g)
+			}
+		}
+	}
 	return e, nil
 }
 
@@ -130,8 +169,7 @@ func (e *Engine) expandGhostSort(vc *VC, srt string) string {
 		}
 		t := e.lookupType(tok[1:])
 		if t == nil {
-			vc.errorf("ghost sort: unknown Go type %s", tok)
-			continue
+			return "" // type not loaded in this run
 		}
 		s := vc.sortOf(t)
 		out = strings.Replace(out, tok, s, -1)
